@@ -124,6 +124,10 @@ func opKind(ws []string) string {
 func (w *world) finish(tw *trace.W, st *drv.Stats, timeout int) {
 	if w.s.Callers() > 0 {
 		w.step(tw, st, []string{"sleep", fmt.Sprint(timeout + 100)})
+		// uploads still in progress end now (a sender outside the environment does not stall for ever)
+		for len(w.slow) > 0 && !w.slow[0].tied {
+			w.step(tw, st, []string{"rt", "finish"})
+		}
 		for i := 0; i < 60 && w.s.Callers() > 0; i++ {
 			w.step(tw, st, []string{"sleep", "100"})
 		}
